@@ -57,6 +57,11 @@ def fchebyshev(x, m):
         dt = x.dtype
     except AttributeError:
         dt = np.float64
+    if not np.issubdtype(dt, np.floating):
+        #
+        # Integer abscissae still have non-integer polynomial values.
+        #
+        dt = np.float64
     leg = np.ones((m, n), dtype=dt)
     if m >= 2:
         leg[1, :] = x
@@ -93,6 +98,11 @@ def fchebyshev_split(x, m):
     try:
         dt = x.dtype
     except AttributeError:
+        dt = np.float64
+    if not np.issubdtype(dt, np.floating):
+        #
+        # Integer abscissae still have non-integer polynomial values.
+        #
         dt = np.float64
     leg = np.ones((m, n), dtype=dt)
     try:
@@ -132,6 +142,11 @@ def fpoly(x, m):
     try:
         dt = x.dtype
     except AttributeError:
+        dt = np.float64
+    if not np.issubdtype(dt, np.floating):
+        #
+        # Integer abscissae still have non-integer polynomial values.
+        #
         dt = np.float64
     leg = np.ones((m, n), dtype=dt)
     if m >= 2:
